@@ -897,3 +897,53 @@ step!(u_in_14, Cfg { kind: 1, h: 1, d: 3, cur: 0, line: Some(2), classes: [1, 4,
 step!(u_in_2_buffered, Cfg { kind: 1, h: 1, d: 3, cur: 0, line: Some(1), classes: [2, 1, 1, 1], depth: [2, 0, 0, 0, 0, 0], ..CFG0 });
 // @h prop=C14 unwind=10 rec=2 cutfmt=num uw=same_output.0:25;exit_model.0:25;exit.0:25;push.0:17;write.0:17 timeout=900 tier=thorough what=non-negative_fraction_to_stdout:floor_is_the_code_point
 step!(u_out_frac, Cfg { kind: 1, h: 1, d: 1, dom: Dom::ScalarFrac, depth: [0, 0, 0, 1, 0, 0], ..CFG0 });
+
+// ===========================================================================
+// C06 (printing clause): Display of a rational - NaN prints the fixed NaN text (both NaN
+// encodings), an integer prints without a denominator, a fraction as "n/d" with the sign in
+// front.  One-digit magnitudes (the decimal rendering of the parts is modelled by the one-digit
+// model; multi-digit rendering is C09's subject).
+// ===========================================================================
+fn display_check(shape: u8) {
+    use std::io::Write as _;
+    let (n, d, neg) = (any_u8(), any_u8(), any_bool());
+    assume(n < 10 && d < 10 && d >= 2 && n >= 1);
+    let mut w = CapW::new(false);
+    let x = match shape {
+        0 => num_of_v(V { n: if neg { -1 } else { 1 }, d: 0 }),
+        1 => num_of_v(vi(n as i32)),
+        _ => num_of_v(V { n: n as i32, d: d as i32 }),
+    };
+    write!(w, "{}", x).unwrap();
+    match shape {
+        0 => {
+            const T: [u8; 16] = [0xEB, 0x84, 0x88, 0xEB, 0xAC, 0xB4, 0x20, 0xEC, 0xBB, 0xA4, 0xEC, 0x97, 0x87, 0x2E, 0x2E, 0x2E];
+            assert!(w.len == 16);
+            let mut i = 0;
+            while i < 16 {
+                assert!(w.buf[i] == T[i], "NaN does not print as the fixed NaN text");
+                i += 1;
+            }
+        }
+        1 => assert!(w.len == 1 && w.buf[0] == b'0' + n, "an integer is not printed as its digits alone"),
+        _ => assert!(w.len == 3 && w.buf[0] == b'0' + n && w.buf[1] == b'/' && w.buf[2] == b'0' + d, "a fraction is not printed as n/d"),
+    }
+    vcover!();
+    std::mem::forget((x, w));
+}
+macro_rules! display {
+    ($name:ident, $shape:expr) => {
+        #[cfg_attr(kani, kani::proof)]
+        #[cfg_attr(kani, kani::stub(BigNum::to_string_base, m_to_string_digit))]
+        #[cfg_attr(kani, kani::stub(std::fmt::format, fmt_model))]
+        pub fn $name() {
+            display_check($shape);
+        }
+    };
+}
+// @h prop=C06 unwind=10 cutfmt=num uw=write.0:17;display_check.0:17 timeout=900 mem=12 stubs=BigNum::to_string_base->one-digit_model what=Display_of_NaN(1/0_and_-1/0)=fixed_NaN_text
+display!(display_nan, 0);
+// @h prop=C06 unwind=10 cutfmt=num uw=write.0:17 timeout=900 mem=12 stubs=BigNum::to_string_base->one-digit_model what=Display_of_an_integer:no_denominator
+display!(display_int, 1);
+// @h prop=C06 unwind=10 cutfmt=num uw=write.0:17 timeout=900 mem=12 stubs=BigNum::to_string_base->one-digit_model what=Display_of_a_fraction:n/d
+display!(display_frac, 2);
